@@ -99,7 +99,7 @@ Proof.
       * rewrite !get_list_update_same. destruct (Hwf u) as [Ha Hl]. split.
         -- apply ascending_snoc; assumption.
         -- rewrite !app_length, Hl. reflexivity.
-      * rewrite !get_list_update_other by assumption. rewrite get_list_setdefault. apply Hwf.
+      * rewrite !get_list_update_other by assumption. rewrite ?get_list_setdefault. apply Hwf.
     + intros k. cbn [fst s_times s_vals s_tags]. rewrite get_list_setdefault. apply Hwf.
 Qed.
 
@@ -141,7 +141,7 @@ Proof.
   - cbn [fst s_times s_vals s_tags]. rewrite get_list_setdefault. auto.
   - destruct (match last_opt (get_list u (s_times T V st)) with
               | Some l => tlt l t | None => true end); cbn [fst s_times s_vals s_tags].
-    + rewrite !get_list_update_other by assumption. rewrite get_list_setdefault. auto.
+    + rewrite !get_list_update_other by assumption. rewrite ?get_list_setdefault. auto.
     + rewrite get_list_setdefault. auto.
 Qed.
 
@@ -172,7 +172,7 @@ Proof.
       pose proof (ascending_head_lt x r Ha) as HF.
       rewrite Forall_forall in HF. apply nth_error_In in Hj. specialize (HF y Hj).
       split; [assumption|apply tlt_neq; assumption].
-    + simpl in Hi, Hj. eapply IH; try eassumption. lia.
+    + simpl in Hi, Hj. apply (IH Hr i j x y); [lia | assumption | assumption].
 Qed.
 
 End ObsResP.
